@@ -111,6 +111,7 @@ theorem allowed_of_b {s : Sys} {a : Act} (h : allowedB s a = true) : Allowed s a
     simp only [allowedB, decide_eq_true_eq] at h; exact h
   | finishJob n => trivial
   | removeJob n => trivial
+  | editStartAfter n t => trivial
   | setMaxConc n m => trivial
   | deliverJob => trivial
   | deliverJC => trivial
